@@ -84,6 +84,40 @@ impl ShortMessageFactory for ForeignStrict {
     }
 }
 
+/// Third-party implementor whose n-th getter call panics (fault injection: a message type backed by
+/// some fallible resource). A scanner that is fed such a message and whose caller catches the
+/// unwind must be left in a state it could also have reached without the failure.
+pub struct ForeignPanicky {
+    pub s: u8,
+    pub d1: U7,
+    pub d2: U7,
+    pub calls: core::cell::Cell<u32>,
+    pub panic_at: u32,
+}
+impl ForeignPanicky {
+    fn tick(&self) {
+        let n = self.calls.get();
+        self.calls.set(n + 1);
+        if n == self.panic_at {
+            panic!("harness: injected failure in getter call #{}", n);
+        }
+    }
+}
+impl ShortMessage for ForeignPanicky {
+    fn status_byte(&self) -> u8 {
+        self.tick();
+        self.s
+    }
+    fn data_byte_1(&self) -> U7 {
+        self.tick();
+        self.d1
+    }
+    fn data_byte_2(&self) -> U7 {
+        self.tick();
+        self.d2
+    }
+}
+
 /// Third-party implementor that overrides `to_bytes` (consistently) and stores the bytes packed.
 #[derive(Clone, Copy, PartialEq, Eq, Debug)]
 pub struct ForeignBytes(pub u32);
